@@ -8,6 +8,10 @@ def run(tier, seed):
     obs, units, extra = grid.e2_obligations("C05", parts=("iloc_real", "right_loc"))
     fns = [{"fn": u.label, "slice_sha": u.sha} for u in units]
     o2, f2 = clipwire.obligations("C05"); obs += o2; fns += f2
+    # 'a single generator', 'n = 1, 2': nothing the neighbour search hands over is dropped before it is clipped or ends the loop
+    from . import faces
+    o4, m4 = faces.bisector_obligations("C05")
+    obs += [x for x in o4 if "every_candidate" in x.name or "loop_runs_over" in x.name or x.expect_sat]; fns.append(m4)
     for f in (halfspace.new_obligations, halfspace.clip_obligations):
         o3, u3 = f("C05"); obs += o3; fns += [{"fn": u.label, "slice_sha": u.sha} for u in u3]
     smt.discharge_all(obs, tier)
